@@ -154,19 +154,33 @@ theorem schedule_ci (maxArr : Nat) (sc : Script) (fuel : Nat) (s : EState) (h : 
 theorem startCall_ci (s : EState) (plan : Gen) : CacheInv (startCall s plan) :=
   cacheInv_empty _ rfl
 
-theorem startResume_cache (s : EState) : (startResume s).msgCache = some [] := by
+/-- `RE.resume()`: the rewind plan -- the cache as a generator -- goes on top of the plan stack with response
+    None; an empty cache remains; nothing else of the checkpoint projection moves -/
+theorem ck_startResume (s : EState) :
+    ck (startResume s) =
+      { (ck s).fresh with
+        plans := Gen.list (s.msgCache.getD []) :: s.planStack
+        resps := .none :: s.respStack } := by
   unfold startResume
   simp only []
   have hr := ck_rewindPlan (forBundlers { s with interrupted := false } fun s b => recordInterruption s b "resume")
-  generalize rewindPlan (forBundlers { s with interrupted := false } fun s b => recordInterruption s b "resume") = p at hr
+  have hf := rewindPlan_fst (forBundlers { s with interrupted := false } fun s b => recordInterruption s b "resume")
+  have h0 : ck (forBundlers { s with interrupted := false } fun s b => recordInterruption s b "resume") = ck s := by
+    rw [ck_forBundlers_ri]; rfl
+  generalize rewindPlan (forBundlers { s with interrupted := false } fun s b => recordInterruption s b "resume") = p at hr hf
   obtain ⟨rw, s2⟩ := p
-  simp only at hr ⊢
+  simp only at hr hf ⊢
+  rw [ck_cache h0] at hf
+  subst hf
   have e : ∀ x : EState, ck { x with permit := true, blockingEvent := false } = ck x := fun _ => rfl
-  have e2 : ∀ (x : EState) (g : Gen) (r : Resp), ({ x with planStack := g :: x.planStack, respStack := r :: x.respStack } : EState).msgCache = x.msgCache :=
-    fun _ _ _ => rfl
-  have := ck_cache (e (resumeHooks { s2 with planStack := Gen.list rw :: s2.planStack, respStack := .none :: s2.respStack }))
-  rw [this, ck_cache (ck_resumeHooks _), e2]
-  exact congrArg Ck.cache hr
+  rw [e, ck_resumeHooks]
+  have h2 : ck s2 = (ck s).fresh := by rw [hr, h0]
+  simp only [ck, Ck.fresh] at h2 ⊢
+  injection h2 with c1 c2 c3 c4 c5
+  simp only [c1, c2, c3, c4, c5]
+
+theorem startResume_cache (s : EState) : (startResume s).msgCache = some [] :=
+  congrArg Ck.cache (ck_startResume s)
 
 theorem startResume_ci (s : EState) : CacheInv (startResume s) := cacheInv_empty _ (startResume_cache s)
 
